@@ -212,7 +212,7 @@ def main(argv=None):
     harness_errors = []
     inconclusive = []
     sat_cases = []
-    obligations = discharged = evaluations = 0
+    obligations = discharged = evaluations = solver_checks = 0
     nontrivial_keys = set()
     nontrivial_merged = 0
     paths = validated = 0
@@ -359,11 +359,12 @@ def main(argv=None):
             coverage=dict(
                 evaluations=max(evaluations, 0), distinct_nontrivial=len(nontrivial_keys) + nontrivial_merged,
                 rule=("obligations = (configuration, path, goal) triples produced by executing the real pyMOTO "
-                      "functions on symbolic values; evaluations = obligations sent to z3 (the rest were closed by "
-                      "z3's simplifier or are concrete); non-trivial = both sides not the same term and not both "
-                      "concrete; distinct by (item id, path index, label)"),
+                      "functions on symbolic values; evaluations = obligations handed to z3 (closed by z3's simplifier "
+                      "as a polynomial identity, or decided by a z3 solver check: see solver_check_calls); the "
+                      "remaining obligations compare two concrete values or the very same term; non-trivial = both "
+                      "sides not the same term and not both concrete; distinct by (item id, path index, label)"),
                 samples=samples or [dict(note="no solver query needed: every obligation closed by z3.simplify")],
-                obligations=obligations, discharged=discharged, inconclusive=len(inconclusive),
+                obligations=obligations, discharged=discharged, solver_check_calls=solver_checks, inconclusive=len(inconclusive),
                 sat_answers=len(sat_cases), sat_in_already_reported_groups=n_same_group, reproduced_known=sum(n for _, n in known_hits.values()),
                 spurious_sat=spurious, paths=paths, configurations=len(items),
                 traces_validated_against_impl=validated, functions_encoded=sorted(functions),
